@@ -255,7 +255,7 @@ class Interp {
     if (p.checkOverlap(p) != p.getSupport().containsIntervals()) fail("C15", who + ": checkOverlap with itself wrong");
   }
   void check_predicates() {
-    if (!(focus & F_C15)) return;
+    if (!(focus & F_C15) || !Traits<T>::exact_arith) return;  // NaN coefficients (possible with built-in floats) are outside C15
     with_all([&](auto O, auto &v) {
       for (size_t i = 0; i < v.size() && !failed; i++) check_pred_of(v[i], "spline<" + std::to_string(decltype(O)::value) + "> #" + std::to_string(i));
     });
@@ -677,7 +677,8 @@ class Interp {
     switch (op.code) {
       case P_COPY: {
         Spline<T, o> cp(v[a]);
-        if ((focus & F_C14) && !(cp == v[a] && snap(cp).same(snap(v[a])))) fail("C14", "copy of a spline differs from the original");
+        // (operator== is not used as an oracle with built-in floats: histories may produce NaN coefficients, outside C15)
+        if ((focus & F_C14) && !((!Traits<T>::exact_arith || cp == v[a]) && snap(cp).same(snap(v[a])))) fail("C14", "copy of a spline differs from the original");
         store_spline(std::move(cp), fam(kind, a));
         break;
       }
@@ -923,12 +924,12 @@ class Interp {
                 auto s1 = va[a] + vb[b];  // must equal b as a function: same window and coefficients as b promoted
                 Spline<T, oa> bb(vb[b].getSupport().getGrid());
                 bb = vb[b];
-                if (!(s1 == bb)) fail("C10", "moved-from spline + b is not b (moved-from object is not a zero spline)");
+                if (!snap(s1).same(snap(bb))) fail("C10", "moved-from spline + b is not b (moved-from object is not a zero spline)");
                 auto p1 = va[a] * vb[b];
                 if (!p1.isZero() || p1.getSupport().containsIntervals()) fail("C10", "moved-from spline * b is not interval-free");
                 switch ((unsigned)op.a % 3) {
-                  case 0: va[a] = bb; if (!(va[a] == bb)) fail("C10", "assignment to a moved-from spline did not take"); break;
-                  case 1: va[a] += vb[b]; if (!(va[a] == bb)) fail("C10", "moved-from += b is not b"); break;
+                  case 0: va[a] = bb; if (!snap(va[a]).same(snap(bb))) fail("C10", "assignment to a moved-from spline did not take"); break;
+                  case 1: va[a] += vb[b]; if (!snap(va[a]).same(snap(bb))) fail("C10", "moved-from += b is not b"); break;
                   default: va[a] = std::move(taken); break;
                 }
               });
